@@ -206,6 +206,7 @@ pub fn judge(which: &str, cfg: &Cfg, log: &[Rec]) -> Report {
     let mut cur = 0u64; // state according to the transition listener
     let mut open_since = 0u64;
     let mut inflight = 0i64;
+    let mut manual_pending = false;
     let mut opened_with_inflight = false;
     let mut arrived_while_open = 0u64;
     // half-open episode accounting
@@ -219,10 +220,21 @@ pub fn judge(which: &str, cfg: &Cfg, log: &[Rec]) -> Report {
 
     for r in log {
         match &r.ev {
+            Ev::Note { what } if what.starts_with("manual ") => {
+                manual_pending = true;
+            }
             Ev::Listener { name, a: _, b: to } if name == "transition" => {
                 if cur == 2 {
                     max_ho_arrivals = max_ho_arrivals.max(ho_arrivals);
                 }
+                // the only ways out of Open before the wait has elapsed are the manual overrides
+                if which == "C03" && cur == 1 && *to != 1 && r.t < open_since + b.wait_us && !manual_pending {
+                    rep.violate(
+                        format!("C03:{wt}:left-open-early"),
+                        format!("breaker observed open at t={open_since}us (wait_duration_in_open={}us) left the open state at t={}us (to {}) without force_closed/reset", b.wait_us, r.t, c04::st_name(*to as u8)),
+                    );
+                }
+                manual_pending = false;
                 cur = *to;
                 if cur == 1 {
                     open_since = r.t;
